@@ -14,7 +14,6 @@ import (
 	"sort"
 	"strings"
 
-	"github.com/piotrnar/gocoin/client/common"
 	"github.com/piotrnar/gocoin/client/txpool"
 	"github.com/piotrnar/gocoin/lib/btc"
 	"github.com/piotrnar/gocoin/lib/chain"
@@ -753,5 +752,3 @@ func normErr(s string) string {
 	}
 	return slug(s)
 }
-
-var _ = common.Last
